@@ -181,7 +181,7 @@ def settle {β : Type} : Nat → Nat → Array (Nat × β) → Option (Array (Na
 
 /-- the `for` loop over all positions -/
 def sortNodesLoop {β : Type} (a : Array (Nat × β)) : Option (Array (Nat × β)) :=
-  (List.range a.size).foldlM (fun a i => settle (a.size + 1) i a) a
+  (List.range a.size).foldlM (fun b i => settle (a.size + 1) i b) a
 
 /-- `SortNodes`: the node list after the permutation, `none` if the loop does not end -/
 def sortNodes {β : Type} (newnum : Array Nat) (nodes : Array β) : Option (Array β) :=
